@@ -47,6 +47,9 @@ def _alarm(_s, _f):
     raise Timeout()
 
 
+OUT_LIMIT = 32 * 1024 * 1024
+
+
 def transpile(src: str, timeout_s: int = 20) -> dict:
     """Run parse()+emit() of the current working tree in this process.
     Returns {"status": "accept", "cpp":..., "libs": [...]} | {"status":"reject","cls":..,"msg":..}
@@ -106,13 +109,22 @@ def compile_run(cpp: str, passes: int = 3, inputs: str = "", san: bool = False, 
             env["RT_FLUSH"] = "1"
             env["ASAN_OPTIONS"] = "detect_leaks=0:abort_on_error=0:exitcode=66"
             env["UBSAN_OPTIONS"] = "print_stacktrace=0:halt_on_error=1:exitcode=67"
+        # the event stream goes to a file of bounded size: a sketch that never leaves setup() (or a loop) prints without end, and
+        # an unbounded capture would take the worker down with it instead of producing a verdict
+        def _limit():
+            import resource
+            resource.setrlimit(resource.RLIMIT_FSIZE, (OUT_LIMIT, OUT_LIMIT))
         try:
-            r = subprocess.run([str(d / "fw"), str(passes), str(d / "in.txt")], capture_output=True, text=True,
-                               timeout=run_timeout, env=env, errors="replace")
-            out, err, rc = r.stdout, r.stderr, r.returncode
-        except subprocess.TimeoutExpired as ex:
-            out = ex.stdout.decode("utf8", "replace") if isinstance(ex.stdout, bytes) else (ex.stdout or "")
+            with open(d / "out.ndjson", "wb") as fo:
+                r = subprocess.run([str(d / "fw"), str(passes), str(d / "in.txt")], stdout=fo, stderr=subprocess.PIPE, text=True,
+                                   timeout=run_timeout, env=env, errors="replace", preexec_fn=_limit)
+            err, rc = r.stderr, r.returncode
+        except subprocess.TimeoutExpired:
             err, rc = "run timeout", -9
+        out = (d / "out.ndjson").read_bytes().decode("utf8", "replace")
+        if rc == -25:                    # SIGXFSZ: the output limit was reached
+            err, rc = "run timeout (output limit reached)", -9
+            out = out[:out.rfind("\n") + 1]
         res = {"compile": "ok", "events": parse_events(out), "rc": rc, "stderr": err[-3000:]}
         if rc != 0:
             kind = "timeout" if rc == -9 else "crash"
